@@ -69,15 +69,88 @@ fn chol_class_float(base: &Mat, spd_hint: bool) -> (CholClass, f64, f64) {
     (c, lmin, lmaxabs)
 }
 
+fn gcd64(a: i64, b: i64) -> i64 {
+    let (mut a, mut b) = (a.abs(), b.abs());
+    while b != 0 {
+        let t = a % b;
+        a = b;
+        b = t;
+    }
+    a
+}
+
+/// Exact integer basis of null(A) by fraction-free Gauss-Jordan elimination in i64 with every row
+/// kept primitive (overflow checks are on in the harness profile: an overflow would panic, not wrap).
+/// Independent re-implementation for small matrices; cross-checked against `oracle::inullspace` in
+/// debug assertions of the harness tests (see `selfcheck`).
+pub fn null_basis_i64(a: &[Vec<i64>]) -> Vec<Vec<i64>> {
+    let r = a.len();
+    let c = if r == 0 { 0 } else { a[0].len() };
+    let mut m: Vec<Vec<i64>> = a.to_vec();
+    let mut piv: Vec<usize> = Vec::new();
+    let mut row = 0;
+    for colj in 0..c {
+        if row >= r {
+            break;
+        }
+        let Some(p) = (row..r).find(|&i| m[i][colj] != 0) else { continue };
+        m.swap(row, p);
+        let d = m[row].iter().fold(0, |d, x| gcd64(d, *x));
+        if d > 1 {
+            m[row].iter_mut().for_each(|x| *x /= d);
+        }
+        for i in 0..r {
+            if i != row && m[i][colj] != 0 {
+                let (f, g) = (m[row][colj], m[i][colj]);
+                let l = gcd64(f, g);
+                let (f, g) = (f / l, g / l);
+                for j in 0..c {
+                    m[i][j] = m[i][j] * f - m[row][j] * g;
+                }
+                let d = m[i].iter().fold(0, |d, x| gcd64(d, *x));
+                if d > 1 {
+                    m[i].iter_mut().for_each(|x| *x /= d);
+                }
+            }
+        }
+        piv.push(colj);
+        row += 1;
+    }
+    let mut basis = Vec::new();
+    for f in (0..c).filter(|j| !piv.contains(j)) {
+        let mut l = 1i64;
+        for (row, &p) in piv.iter().enumerate() {
+            if m[row][f] != 0 {
+                let d = m[row][p].abs();
+                l = l / gcd64(l, d) * d;
+            }
+        }
+        let mut x = vec![0i64; c];
+        x[f] = l;
+        for (row, &p) in piv.iter().enumerate() {
+            x[p] = -m[row][f] * (l / m[row][p].abs()) * m[row][p].signum();
+        }
+        basis.push(x);
+    }
+    basis
+}
+
 /// Exact preparation of a matrix with entries q[i][j]/den (small integers).
 pub fn prepare_int(label: String, q: &IMat, den: i128) -> Input {
     let m = q.len();
     let n = q[0].len();
     let base: Mat = q.iter().map(|r| r.iter().map(|x| *x as f64 / den as f64).collect()).collect();
-    let null_i = o::inullspace(q);
-    let rank = n - null_i.len();
-    let lnull_i = o::inullspace(&itranspose(q));
-    debug_assert_eq!(m - lnull_i.len(), rank);
+    let small = m.max(n) <= 6 && q.iter().all(|r| r.iter().all(|x| x.abs() < 1 << 20));
+    let (null, lnull): (Vec<Vec<f64>>, Vec<Vec<f64>>) = if small {
+        let q64: Vec<Vec<i64>> = q.iter().map(|r| r.iter().map(|x| *x as i64).collect()).collect();
+        let qt64: Vec<Vec<i64>> = (0..n).map(|j| (0..m).map(|i| q64[i][j]).collect()).collect();
+        let f = |v: Vec<Vec<i64>>| -> Vec<Vec<f64>> { v.into_iter().map(|x| x.into_iter().map(|y| y as f64).collect()).collect() };
+        (f(null_basis_i64(&q64)), f(null_basis_i64(&qt64)))
+    } else {
+        (ivecs_to_f64(o::inullspace(q)), ivecs_to_f64(o::inullspace(&itranspose(q))))
+    };
+    let rank = n - null.len();
+    assert_eq!(m - lnull.len(), rank, "oracle: row rank != column rank");
     let sv = o::singular_values(&base);
     let cond = if rank == 0 { 1.0 } else { sv[0] / sv[rank - 1] };
     let mut chol_cls = "not-symmetric";
@@ -89,8 +162,8 @@ pub fn prepare_int(label: String, q: &IMat, den: i128) -> Input {
             Some(_) => "first-nonpositive-leading-minor-is-negative",
         };
         if minors.iter().all(|d| *d > 0) {
-            let (lam, _) = o::jacobi_eig(&base);
-            (CholClass::Spd, *lam.last().unwrap(), lam[0].abs())
+            // eigenvalues of an SPD matrix are the singular values
+            (CholClass::Spd, sv[n - 1], sv[0])
         } else {
             let (c, lo, hi) = chol_class_float(&base, false);
             // exact minors say "not positive definite": never call it Spd on float evidence
@@ -99,7 +172,17 @@ pub fn prepare_int(label: String, q: &IMat, den: i128) -> Input {
     } else {
         (CholClass::NotSym, 0.0, 0.0)
     };
-    Input { label, m, n, base, exact: true, rank, null: ivecs_to_f64(null_i), null_exact: true, lnull: Some(ivecs_to_f64(lnull_i)), sv, cond, chol, lam_min, lam_max_abs, chol_cls }
+    Input { label, m, n, base, exact: true, rank, null, null_exact: true, lnull: Some(lnull), sv, cond, chol, lam_min, lam_max_abs, chol_cls }
+}
+
+/// The Gram matrix G^T G of an exactly full-column-rank integer matrix G: positive definite by
+/// construction, singular values = squares of those of G.
+pub fn prepare_gram(label: String, g: &IMat, den: i128, of: &Input) -> Input {
+    let n = g.len();
+    let base: Mat = g.iter().map(|r| r.iter().map(|x| *x as f64 / den as f64).collect()).collect();
+    let sv: Vec<f64> = of.sv.iter().map(|x| x * x).collect();
+    let cond = sv[0] / sv[n - 1];
+    Input { label, m: n, n, base, exact: true, rank: n, null: Vec::new(), null_exact: true, lnull: Some(Vec::new()), lam_min: sv[n - 1], lam_max_abs: sv[0], sv, cond, chol: CholClass::Spd, chol_cls: "positive-definite" }
 }
 
 /// Preparation of a matrix whose rank and null space are known by construction (`null` empty =
@@ -117,7 +200,33 @@ pub fn prepare_known(label: String, base: Mat, exact: bool, rank: usize, null: V
     let (null, null_exact) = if null.len() + rank == n { (null, true) } else { (float_nullspace(&base, rank)?, false) };
     let cond = if rank == 0 { 1.0 } else { sv[0] / sv[rank - 1] };
     let (chol, lam_min, lam_max_abs) = if m == n { chol_class_float(&base, spd_hint) } else { (CholClass::NotSym, 0.0, 0.0) };
-    Some(Input { label, m, n, base, exact, rank, null, null_exact, lnull: None, sv, cond, chol, lam_min, lam_max_abs, chol_cls: "float-classified" })
+    let chol_cls = if chol == CholClass::NotSym { "not-symmetric" } else { pivot_class_float(&base) };
+    Some(Input { label, m, n, base, exact, rank, null, null_exact, lnull: None, sv, cond, chol, lam_min, lam_max_abs, chol_cls })
+}
+
+/// Sign of the first non-positive leading minor, from the pivots of unpivoted symmetric elimination
+/// in f64 (pivot k = minor_k / minor_{k-1}); exact for the 0/1/small-integer families it is used on.
+fn pivot_class_float(a: &Mat) -> &'static str {
+    let n = a.len();
+    let mut w = a.clone();
+    for k in 0..n {
+        let p = w[k][k];
+        if p == 0.0 {
+            return "first-nonpositive-leading-minor-is-zero";
+        }
+        if p < 0.0 {
+            return "first-nonpositive-leading-minor-is-negative";
+        }
+        for i in k + 1..n {
+            let f = w[i][k] / p;
+            if f != 0.0 {
+                for j in k..n {
+                    w[i][j] -= f * w[k][j];
+                }
+            }
+        }
+    }
+    "positive-definite"
 }
 
 /// Null-space basis of a full-row-rank (wide) matrix by Gauss-Jordan elimination with complete
